@@ -61,6 +61,13 @@ def _lam(spec, terms, spin):
     raise ValueError("unknown lam spec %r" % (spec,))
 
 
+def _twinnable(terms):
+    """a term with two python-int labels, in a model whose labels are ints and strings only (numpy integers compared
+    with tuple labels yield arrays - that is numpy's doing, not a case for this property)"""
+    return all(type(l) in (int, str) for k in terms for l in k) and \
+        any(sum(1 for l in k if type(l) is int) >= 2 for k in terms)
+
+
 def _build(case):
     cls = cls_of(case["type"])
     terms = case["terms"]
@@ -81,6 +88,23 @@ def _build(case):
                 M[k] += v - (2 * v + 1)
             else:
                 M[k] -= (2 * v + 1) - v
+        return M
+    if how == "twin":
+        # the same monomial entered under two spellings: python int and numpy.int64 labels are equal objects (one
+        # variable), but the library keeps the two keys apart (labels are ordered by type name first), so the model
+        # holds one monomial under two keys; the function it denotes is the sum, and so must the reduced form's be
+        M = cls()
+        done = False
+        for k, v in terms.items():
+            ints = [i for i, l in enumerate(k) if type(l) is int]
+            if not done and len(ints) >= 2:
+                k1 = tuple(np.int64(l) if i == ints[0] else l for i, l in enumerate(k))
+                k2 = tuple(np.int64(l) if i == ints[1] else l for i, l in enumerate(k))
+                M[k1] += v + 1
+                M[k2] += -1
+                done = True
+            else:
+                M[k] += v
         return M
     if how == "squashed":
         # spin models only: the first key is written with a label squared (z*z = 1), which denotes the same function
@@ -305,6 +329,9 @@ def _gen(ctx, salt, lams, quick_n, thorough_n, exhaustive=True):
                 if tname in SPIN_M:
                     yield {"type": tname, "terms": terms, "build": "squashed", "target": t, "deg": deg, "lam": lams[0],
                            "pairs": None}
+                if _twinnable(terms):
+                    yield {"type": tname, "terms": terms, "build": "twin", "target": t, "deg": deg, "lam": lams[0],
+                           "pairs": None}
     # 3. seeded random cases
     rng = ctx.rng(salt)
     for _ in range(ctx.pick(quick_n, thorough_n)):
@@ -315,7 +342,8 @@ def _gen(ctx, salt, lams, quick_n, thorough_n, exhaustive=True):
         t = rng.choice(TARGETS)
         deg = None if t in ("to_qubo", "to_quso") else rng.choice([2, 2, 3, 3, 4, None])
         tname = rng.choice(TYPES)
-        builds = ["ctor", "ctor", "refresh", "history"] + (["squashed"] if tname in SPIN_M else [])
+        builds = ["ctor", "ctor", "refresh", "history"] + (["squashed"] if tname in SPIN_M else []) + \
+            (["twin"] if _twinnable(terms) else [])
         yield {"type": tname, "terms": terms, "build": rng.choice(builds),
                "target": t, "deg": deg, "lam": rng.choice(lams), "pairs": _rand_pairs(rng, labels)}
 
